@@ -519,3 +519,41 @@ func HarnessC08ParamHeader() {
 	}
 	verifReach("end")
 }
+
+// HarnessC16Formats: numeric formats delimit the range of the declared type: a value outside the
+// range of int32 / uint32 / float is rejected, inside it is accepted (value fully symbolic).
+func HarnessC16Formats() {
+	p := &spec.Parameter{}
+	p.Name, p.In = "q", "query"
+	var v interface{}
+	var want bool
+	switch verifChoose(5) {
+	case 0:
+		p.Type, p.Format = "integer", "int32"
+		x := verifInt64()
+		v, want = x, verifAnd(-(1<<31) <= x, x < 1<<31)
+	case 1:
+		p.Type, p.Format = "integer", "int64"
+		x := verifInt64()
+		v, want = x, true
+	case 2:
+		p.Type, p.Format = "integer", "int32"
+		x := verifUint64()
+		verifAssume(x <= 1<<53)
+		v, want = x, x < 1<<31
+	case 3:
+		p.Type, p.Format = "integer", "int32"
+		x := verifInt32()
+		v, want = x, true
+	default:
+		p.Type, p.Format = "number", "float"
+		x := verifFloat64()
+		verifAssume(x == x)
+		v, want = x, verifAnd(-3.4028234663852886e38 <= x, x <= 3.4028234663852886e38)
+	}
+	res := NewParamValidator(p, nil).Validate(v)
+	valid := res == nil || res.IsValid()
+	verifObserve("valid", valid)
+	verifAssert(valid == want, "numeric-format-delimits-the-accepted-range")
+	verifReach("end")
+}
